@@ -234,15 +234,15 @@ func allChecks() []*Check {
 					Asserts: []string{"no-crlf-in-line", "own-verb", "wire-is-line-crlf", "one-flush-per-line"}},
 				{Pkg: "client", Func: "VerifC08Wire", Quick: map[string]int{"A": 1, "V": 1}, Thorough: map[string]int{"A": 2, "V": 1},
 					Asserts: []string{"no-crlf-in-line", "own-verb", "wire-ends-with-crlf"}, Note: "connected client, real send goroutine; only the server end's bytes are looked at"},
-				{Pkg: "client", Func: "VerifC08Wire", Quick: map[string]int{"A": 1, "V": 1, "FILL": 500, "FILLSPAN": 12}, Thorough: map[string]int{"A": 1, "V": 1, "FILL": 440, "FILLSPAN": 100},
+				{Pkg: "client", Func: "VerifC08Wire", Quick: map[string]int{"A": 1, "V": 1, "FILL": 500, "FILLSPAN": 12}, Thorough: map[string]int{"A": 1, "V": 1, "FILL": 470, "FILLSPAN": 60},
 					Asserts: []string{"no-crlf-in-line", "own-verb", "wire-ends-with-crlf"}, Note: "every argument preceded by a filler (lines around and beyond 512 bytes)"},
-				{Pkg: "client", Func: "VerifC08Wire", Quick: map[string]int{"A": 1, "V": 0, "FILL": 4092, "FILLSPAN": 4, "NSL": 1}, Thorough: map[string]int{"A": 1, "V": 1, "FILL": 4080, "FILLSPAN": 20, "NSL": 1},
+				{Pkg: "client", Func: "VerifC08Wire", Quick: map[string]int{"A": 1, "V": 0, "FILL": 4092, "FILLSPAN": 4, "NSL": 1}, Thorough: map[string]int{"A": 1, "V": 0, "FILL": 4088, "FILLSPAN": 12, "NSL": 1},
 					Asserts: []string{"no-crlf-in-line", "own-verb", "wire-ends-with-crlf"}, Note: "arguments around bufio's 4096-byte buffer"},
 			},
-			Bounds:      map[string]string{"quick": "all 28 exported command methods; every string argument 0..2 arbitrary bytes (all 256 values; Ctcp verb ASCII), 0..2 variadic elements, SplitLen in {-1,0,12,13,16,450}; the same calls on a connected client (real Connect through a stub dialler, real send goroutine and write), looking only at the bytes at the server end: arguments 0..1 bytes, then every argument = a filler of 500..512 bytes + 0..1 arbitrary bytes (SplitLen 0/13/600), and a filler of 4092..4096 bytes (across bufio's buffer)", "thorough": "arguments 0..4 bytes; connected client: 0..2 bytes, fillers 440..540 and 4080..4100"},
+			Bounds:      map[string]string{"quick": "all 28 exported command methods; every string argument 0..2 arbitrary bytes (all 256 values; Ctcp verb ASCII), 0..2 variadic elements, SplitLen in {-1,0,12,13,16,450}; the same calls on a connected client (real Connect through a stub dialler, real send goroutine and write), looking only at the bytes at the server end: arguments 0..1 bytes, then every argument = a filler of 500..512 bytes + 0..1 arbitrary bytes (SplitLen 0/13/600), and a filler of 4092..4096 bytes (across bufio's buffer)", "thorough": "arguments 0..4 bytes; connected client: 0..2 bytes, fillers 470..530 and 4088..4100"},
 			Outside:     []string{"argument lengths between the small bound and the filler windows, and beyond 4100 bytes", "bytes >= 0x80 in the CTCP verb", "filler bytes are a fixed 'x' (only the tail bytes are symbolic)"},
 			Stubs:       []string{"bufio.Reader/Writer semantic model (fill-flush-continue for writes beyond the buffer) over the harness's in-memory net.Conn", "fmt.Sprintf/Sprintln = arbitrary text up to 2 bytes", "wire-framing predicates (stray CR/LF, CRLF termination, verb at every line start) built as single boolean terms over the transcript"},
-			QuickBudget: 5 * time.Minute, ThorBudget: 40 * time.Minute,
+			QuickBudget: 5 * time.Minute, ThorBudget: 60 * time.Minute,
 		},
 		{
 			ID: "C11", Title: "Long messages are split losslessly into bounded pieces",
